@@ -123,6 +123,8 @@ def run(chk, prog):
     # ---- R4: RF focusing the wake is balanced against (slope, centre, drift slope: decided under C03) -----------------
     from . import C03 as c03
     sub = type(chk)("C03", chk.tier)
+    from .. import main as _main
+    _main.check_anchors("C03", prog)
     c03.run(sub, prog)
     r = [i for i in sub.instances if i["rule"] in ("R1", "R3")]
     for i in r:
@@ -131,6 +133,8 @@ def run(chk, prog):
     # the wake kick of bunch n is the one computed from bunch n's wake potential only if the y-kick reader of KickMap::apply uses
     # the rows the wake map wrote for that bunch, with the writer's stride: decided under C08 (R1 reader/writer, R2 rows per class)
     sub8 = type(chk)("C08", chk.tier)
+    from .. import main as _main
+    _main.check_anchors("C08", prog)
     c08.run(sub8, prog)
     r8 = [i for i in sub8.instances if (i["rule"] == "R1" and ("reader" in i["what"] or "writer" in i["what"])) or (i["rule"] == "R2" and "WakePotentialMap" in i["what"])
           or (i["rule"] == "R4" and "wake" in i["what"])]
